@@ -2,6 +2,11 @@
 
 use serde_json::Value;
 
-pub fn replay(_property: &str, engine: &str, _case: &Value) -> Result<(), String> {
-    Err(format!("unknown engine {engine:?} in replay file"))
+pub mod index;
+
+pub fn replay(_property: &str, engine: &str, case: &Value) -> Result<(), String> {
+    match engine {
+        "index" => index::replay(case),
+        _ => Err(format!("unknown engine {engine:?} in replay file")),
+    }
 }
